@@ -63,6 +63,33 @@ inspected.  Case kinds:
          itself, see ASSUMPTIONS), every paragraph's matches() against the glob model,
          find_files_paragraph against the last-match rule
                           (M.long.files, M.long.find, M.long.reparse, M.long.reparse.find, M.match, M.stale)
+  lead   (kind 'long' with cls 'lead': the same stages and oracle as `long`) paragraphs BUILT through the API whose
+         patterns START with '.' or '/': '.gitignore' '.github/*' '../shared/?.h' './x' '/abs/*' '...' '.' '..' '/' './'
+         '../' '.*' './/x' '/./x' '../../include/*.h' - a prefix ('.', './', '/', '../', '..', '...', '.../', '../../',
+         '/./', '//', '././', ...) in front of realistic bodies; lists mix them with the SAME pattern without / with other
+         leading characters, in the same paragraph and in later ones (the LAST paragraph that really matches must answer).
+         Names: literal expansions; the same with the leading run of '.' '/' stripped (lstrip('./'), lstrip('.'),
+         lstrip('/'), one character, the prefix, path-normalised, base name); the same with './' '/' '.' '../' put in
+         front or '/' '/.' behind; one edit; fixed probes ('.', '..', '/', './', '', '.x', ...).  `files` against the list
+         given (M.lead.files; as for `long` a difference is turned into names), matches() against the glob model,
+         find_files_paragraph against the last-match rule, re-assignment to a list in which ONE pattern lost / gained
+         leading characters, dump() and re-parse
+                          (M.lead.files, M.lead.find, M.lead.reparse, M.lead.reparse.find, M.match, M.stale)
+  cmt    copyright files with '#' COMMENT LINES handed to Copyright() as BYTES: list / tuple of bytes lines (with and
+         without line ends), bytes lines from a generator / an iterator, io.BytesIO, io.BufferedReader, an on-disk file
+         opened 'rb' (buffered and unbuffered), [a whole bytes string]; default and strict=False.  Comment positions, one
+         forced per document: a comment-only block BETWEEN paragraphs (empty line, comment(s), empty line; several
+         blocks; whitespace-only lines around it), comment lines INSIDE a multi-line Files field (between 'Files:' and the
+         first continuation line, between continuation lines, behind the last one), directly in front of the first field
+         of a paragraph, directly behind the last field, between fields, inside a License text, at the top of the file
+         (with / without an empty line behind it), after the last paragraph (with and without empty lines, last line with
+         and without end of line), COMMENTED-OUT FIELD LINES ('#Files: old7/*', '# Files: ..', '#Copyright: ..',
+         '#License: ..', '#Files:') inside a Files field and elsewhere; comment texts '#', '#\t', '##', '# .', non-ASCII.
+         6% of the documents carry a pattern that CONTAINS '#' ('a#b', ' #x' on a continuation line: not a comment).
+         The SAME document is parsed from the str source of the same family first (the control; judged against what was
+         written = the document without its comment lines: paragraphs, files tuples, matches(), find_files_paragraph),
+         then from bytes and judged in the same way, then both are compared name by name
+                (M.cmt.str.order, M.cmt.str.files, M.cmt.str.find, M.cmt.order, M.cmt.files, M.cmt.find, M.cmt.same, M.match)
   raw    patterns with blanks / tabs / newlines, which cannot be
          written in a Files field: globs_to_re driven through the
          real FilesParagraph.matches of a subclass whose `files`
@@ -114,6 +141,21 @@ Mutants of the long-list / non-strict classes (repo tests still 234 passed), all
   Copyright(strict=False) leaves out the last paragraph           files-paragraph-lost-at-any-paragraph-separator/parsed-with-strict=False
                                                                   (third control: the canonical document with the default strict=True)
 
+Unchanged tree, comment lines (probed before the class was added): a line whose FIRST character is '#' is dropped
+wherever it stands, for str and bytes sources alike (Deb822._skip_useless_lines); ' #x' is a continuation line.
+Mutants of the comment / leading-character classes (repo tests still 234 passed), all exit 1; the first five are not seen
+by any other class of this module:
+  bytes comment lines dropped only in split_gpg_and_payload           files-paragraph-lost-at-comment-lines/bytes-source
+        (a comment-only block between paragraphs reads as an empty paragraph: the document ends there)
+  bytes: `line[0] == b'#'` (never true on Python 3)                   files-paragraph-lost-.. + matches-rejects-..files-differs-from-what-was-written
+  bytes comment lines kept as empty lines                             document-rejected-.. / files-paragraph-lost-.. / matches-rejects-..
+  bytes: comments only recognised once the paragraph has started      files-paragraph-lost-at-comment-lines/bytes-source
+  bytes: only '# ' and a lone '#' are comments ('#Files: old/*' is a field) matches-rejects-matching-name/document-with-comment-lines/bytes-source/files-differs-..
+  _SpaceSeparated.to_str drops a leading './'                         matches-*-name/leading-dot-or-slash-pattern-built-through-api/files-differs-from-the-list-given
+  globs_to_re and matches() both drop a leading './'                  matches-accepts-non-matching-name/leading-dot-or-slash-pattern-built-through-api
+  matches(): a list of wildcard-led patterns does not match '.x'      matches-rejects-matching-name/leading-dot-or-slash-pattern-built-through-api
+  create() strips leading '/'                                         matches-*-name/leading-dot-or-slash-pattern-built-through-api/files-differs-..
+
 Mutants of this class tried on a scratch copy (repo tests still 234 passed):
   find caches list(all_files_paragraphs()) at first use          caught (find-misses-matching-paragraph, find-first-match-wins)
   add_files_paragraph: `if not last_i: insert(0, ..)`            caught (files-paragraph-order-differs-from-documented-insertion)
@@ -156,6 +198,24 @@ RULE = ('Seeded pattern lists (1..3, thorough 1..4 patterns of 1..5, thorough 1.
         'straddling column 70..80 (x k) of the joined text first, + the two pieces left by a cut behind a hyphen / at column 70..80 of a '
         'long pattern + two neighbours glued + one edit; stages built / one list re-assigned to a list differing in one character '
         'behind offset 90 (45%) / dump() then re-parse through 7 source kinds, 30% with strict=False); '
+        "PARAGRAPHS BUILT THROUGH THE API WHOSE PATTERNS START WITH '.' OR '/' (1..3, thorough 1..4 such paragraphs, 25% behind a "
+        "catch-all; create(list / tuple) 2/3, files = .. on a free paragraph / on a paragraph in the document 1/3; lists of 1..4 "
+        "patterns: 35% from a fixed pool ('.gitignore' '.github/*' '../shared/?.h' './x' '/abs/*' '...' '.' '..' '/' './' '../' "
+        "'.*' './/x' '/./x' ...), else one of 23 prefixes ('.', './', '/', '../', '..', '...', '.../', '../../', '/./', '//', "
+        "'././', ...) + one of 42 bodies; 30% of the further patterns are a pattern of an EARLIER paragraph with its leading "
+        "characters stripped or with leading characters added, 12% the same for a pattern of the same list, 18% hostile random "
+        "patterns; 3% illegal; names = literal expansion + 2 variants with the leading '.' '/' run stripped (lstrip('./'), "
+        "lstrip('.'), lstrip('/'), first character, the prefix, normpath, basename) + 1..2 with './' '/' '.' '../' '..' put in "
+        "front or '/' '/.' behind + one edit (30%) + 2 fixed probes, 12..16 per case; 35% re-assign one list to a list in which "
+        "one pattern lost / gained leading characters; dump() then re-parse through 7 source kinds, 30% strict=False); "
+        "BYTES DOCUMENTS WITH '#' COMMENT LINES (1..4, thorough 1..5 Files paragraphs + License paragraphs; 75% of the Files "
+        "fields multi-line; pattern lists hostile random / overlapping an earlier list / realistic / 12% leading-dot-or-slash; "
+        "one comment position forced per document - block between paragraphs 3/14, inside a multi-line Files field 3/14, "
+        "commented-out field lines inside a Files field 2/14, after the last paragraph 2/14, directly before the first field "
+        "1/14, top of file 1/14, mixed 2/14 - the others at 6..25%; 1..3 comment lines per place; sources list of bytes "
+        "3/17, BytesIO 3/17, file opened 'rb' 3/17, generator 2/17, list without line ends, tuple, iterator, BufferedReader, "
+        "unbuffered 'rb' file, whole bytes string 1/17 each; 35% strict=False; 15% no end of line after the last line; "
+        "each document also parsed from the str source of the same family); "
         'histories of files re-assignments; BUILD HISTORIES through the public API '
         '(start: empty Copyright() or a parsed document with 0..4 Files paragraphs; 2..12 steps of add_files_paragraph / '
         'add_license_paragraph / files re-assignment, half of the added lists overlapping a list already in the document; '
@@ -209,6 +269,39 @@ ASSUMPTIONS = ['vp.models.globmatch is a faithful model of the copyright-format 
                'single-backtrack-point matcher, and against the edit-distance DP where affordable (name length x total pattern length '
                '<= 1200; every 24th evaluation up to 20000); every name of the class is derived from a pattern of the case, so an '
                'evaluation counts as non-trivial when the list has >= 2 patterns or a wildcard',
+               'patterns that start with \'.\' or \'/\' (\'./\', \'../\', \'...\'): the format gives them no special meaning - a pattern is '
+               'matched against the whole name character by character, so \'./x\' matches exactly the name \'./x\' (not \'x\'), '
+               '\'*\' matches \'.gitignore\', \'/abs/*\' does not match \'abs/a\'; nothing is normalised, neither in the pattern nor in '
+               'the name.  Domain and guards as for the long lists (legal - 3%: one illegal -, non-empty, whitespace-free; a `files` '
+               'tuple that differs from the list given is not a verdict by itself: the patterns that differ become names and only a '
+               'wrong matches() / find_files_paragraph answer is reported, key suffix /files-differs-from-the-list-given; without an '
+               'observed wrong answer it is a note, lead:note:* / lead_notes); the name \'\' (everything stripped) is in the domain, '
+               'names with a newline are not generated in this class',
+               'documents with comment lines: a comment line is a line whose FIRST character is \'#\' (Policy 5.1 "Lines starting with '
+               'U+0023 (#), without any preceding whitespace, are comment lines ... These comment lines are ignored, even between two '
+               'continuation lines. They do not end logical lines."; Deb822._skip_useless_lines: "Yields only lines that do not begin '
+               'with \'#\'"; the iter_paragraphs docstring names "comments within paragraphs" as a feature of the native parser).  The '
+               'document is therefore taken to be the document without those lines: a comment-only block between two separator lines '
+               'leaves a gap of several separator lines (see above: separates like one), a comment between continuation lines leaves '
+               'the field in one piece, comments after the last paragraph add nothing; \' #x\' and \'Files: #x\' carry the PATTERN '
+               '\'#x\'.  Lines with CR, comments with bytes that are not UTF-8, comments inside PGP armour are outside the class',
+               'documents with comment lines, guards: (a) the str parse is the control and is itself judged against what was written; '
+               'if it does not show the Files paragraphs written, a violation is reported only when the SAME document without its '
+               'comment lines, through the same kind of source and the same `strict`, does show them (key ...-at-comment-lines/'
+               'str-source); otherwise harness sanity (inconclusive); the bytes parse is then not judged; (b) the bytes parse is judged '
+               'only after the str parse of the same family (list of str for list of bytes, generator for generator, StringIO for '
+               'BytesIO / BufferedReader, the file opened in text mode with encoding utf-8 for the file opened \'rb\') held completely; '
+               'a bytes parse that does not show the Files paragraphs written is reported as ...-at-comment-lines/bytes-source when '
+               'the bytes document without comment lines does show them, else as ...-in-bytes-document/bytes-source (bytes sources '
+               'are documented: "encoding: Encoding to use, in case input is raw byte strings"); (c) Files paragraphs are identified '
+               'by their unique Copyright id; a `files` tuple that differs from what was written is not a verdict by itself: the '
+               'patterns that differ become names, and only a wrong matches() / find_files_paragraph answer is reported (key suffix '
+               '/files-differs-from-what-was-written), else a note (cmt:note:*, cmt_notes); stand-alone License paragraphs that differ '
+               'are a note; (d) a WHOLE str / bytes string is not a documented `sequence` ("Sequence of lines, e.g. a list of strings '
+               'or a file-like object"): judged like the other sources only while the comment-free control through the same kind '
+               'parses to what was written, otherwise counted (cmt:note:whole-string-source-not-judged) and never reported; (e) bytes '
+               'are UTF-8, the default `encoding`; (f) with an illegal escape in the document str and bytes results are not compared '
+               'name by name (either accepted outcome may occur)',
                'names are str; patterns containing whitespace are only reachable through globs_to_re and are observed '
                'through the real FilesParagraph.matches of a subclass overriding the `files` property',
                'build histories: "the last Files paragraph of the document as it is now" is read off an independent model of '
@@ -706,12 +799,15 @@ def gen_long_case(r, wide):
 
 LEAD_FIXED = ['.gitignore', '.github/*', '../shared/?.h', './x', '/abs/*', '...', '.', '..', './', '../', '/', './*', '../*', '.*',
               '/*', '.?', './.hidden', '.?*', '..?', '.travis.yml', '.pc/*', '.git*', './debian/*', '/usr/share/doc/*',
-              '../../include/*.h', '.../*', './/x', '/./x', '.\\*', './\\?x', '/\\\\x', '.config/*/settings.?']
+              '../../include/*.h', '.../*', './/x', '/./x', '.\\*', './\\?x', '/\\\\x', '.config/*/settings.?',
+              '.DS_Store', '.git/*', '.gitattributes', '.editorconfig', '.clang-format', '.hg*', '.svn/*', '/etc/*', './configure',
+              './debian/rules', '../*.orig.tar.*', '.mailmap', '/usr/lib/*/pkgconfig/?*.pc', './.', '/..', '.a']
 LEAD_PREFIX = ['.', '.', '.', './', './', './', '/', '/', '/', '../', '../', '..', '...', '.../', '../../', '/./', '//', '././',
                './.', '/.', '../.', './/', '/../']
 LEAD_BODY = ['gitignore', 'github/*', 'shared/?.h', 'x', 'x', 'abs/*', 'git*', 'pc/*', 'travis.yml', 'config/*/settings.?',
              'usr/share/doc/*', 'debian/*', 'include/*.h', '*', '?', '*.c', 'a', 'a/b', 'hidden/.inner', 'x.', 'x/.', 'x/..',
-             '\\*', '\\?x', 'a\\\\b', 'src/*/Makefile.in', 'debian/rules', 'a-b', '(x)', '[x]', 'x+', 'README', '']
+             '\\*', '\\?x', 'a\\\\b', 'src/*/Makefile.in', 'debian/rules', 'a-b', '(x)', '[x]', 'x+', 'README', '',
+             'DS_Store', 'git/*', 'gitattributes', 'configure', 'etc/*', 'ab', 'abc', 'Makefile', 'lib/.libs/*']
 
 
 def lead_class(p):
@@ -1365,7 +1461,7 @@ def cases(ctx):
                'paras': [{'F': ['*'], 'via': 'create'}, {'F': ['./*', '../*'], 'via': 'assign', 'first': ['*']},
                          {'F': ['.', '..', '/', './', '../'], 'via': 'assign-in-doc', 'first': ['placeholder']},
                          {'F': ['.*', '/*/?'], 'via': 'create'}],
-               'names': ['.', '..', '/', './', '../', './a', '../a', 'a', '.a', '/a/b', 'a/b', '/a', '.../a', '', '.\n']}
+               'names': ['.', '..', '/', './', '../', './a', '../a', 'a', '.a', '/a/b', 'a/b', '/a', '.../a', '', '.x']}
     r = ctx.rng('lead')
     for i in range(ctx.size(*SIZES['lead'])):
         yield gen_lead_case(r, wide)
@@ -3096,7 +3192,9 @@ for _t, _d in _R5_FLOORS.items():
 
 LEVEL_TEXT = ('Runtime monitoring: seeded hostile pattern lists and near-miss names (literal expansions of the patterns with '
               '0..2 single-character edits), bounded-exhaustive sweeps of small pattern/name spaces, parsed and built '
-              'documents with several Files paragraphs, and histories of `files` re-assignments are pushed through the live '
+              'documents with several Files paragraphs (also with whitespace-only separators, with comment lines and handed over '
+              'as bytes), paragraphs built with long lists and with patterns that start with "." or "/", and histories of `files` '
+              're-assignments are pushed through the live '
               'FilesParagraph.matches / Copyright.find_files_paragraph; every answer is compared with an independent glob '
               'matcher (whole-name, * crosses "/", ? exactly one character, only \\\\ \\* \\? escapes) and with the "last '
               'matching paragraph or None" rule.  Held-on-observed, not a proof: reach is the generated set.')
